@@ -355,6 +355,27 @@ pub fn layout(
                 (vec![wu], vec![3, wu], ev)
             }
         }
+        "c31" | "c41s" | "c2313" => {
+            // operands whose last non-bit dimension is 1 next to a larger one (the comparison result then ends in
+            // a dimension of size 1): two columns [3,1,w]x[3,1,w]; a column and a single string [4,1,w]x[w];
+            // [2,3,1,w]x[3,1,w]
+            let (na, nb, sa, sb): (usize, usize, Vec<u64>, Vec<u64>) = match layout {
+                "c31" => (3, 3, vec![3, 1, wu], vec![3, 1, wu]),
+                "c41s" => (4, 1, vec![4, 1, wu], vec![wu]),
+                _ => (6, 3, vec![2, 3, 1, wu], vec![3, 1, wu]),
+            };
+            let mut ev = vec![];
+            let mut i = 0;
+            while i < valpha.len() {
+                let mut j = 0;
+                while j < valpha.len() {
+                    ev.push((window(&valpha, i, na), window(&valpha, j, nb)));
+                    j += nb.max(2);
+                }
+                i += na;
+            }
+            (sa, sb, ev)
+        }
         _ => {
             // "b213": [2,1,w] x [1,3,w]
             let mut ev = vec![];
